@@ -693,14 +693,17 @@ func (w *vc35World) quiesce() bool {
 		for w.mq.pendingWorkCount() != 0 {
 			w.barrier()
 			o1 := look()
+			st1 := vc35RunLoopStack()
 			w.barrier()
 			o2 := look()
+			st2 := vc35RunLoopStack()
 			if o1 == o2 && o1.pending != 0 && o1.signal == 0 {
 				w.mq.wllock.Lock()
 				d := fmt.Sprintf("pending peer wants=%d, pending broadcast wants=%d, queued cancels=%d; messages sent so far=%d; outgoingWork signal queued=%v",
 					w.mq.peerWants.pending.Len(), w.mq.bcstWants.pending.Len(), w.mq.cancels.Len(), o1.msgs, o1.signal != 0)
 				w.mq.wllock.Unlock()
 				class := "stalled-pending-work"
+				d += fmt.Sprintf("; DEBUG o1=%+v stack1=%s o2=%+v stack2=%s", o1, st1, o2, st2)
 				d += "; run loop goroutine: " + vc35RunLoopStack()
 				w.mu.Lock()
 				d += fmt.Sprintf("; logical time now=%d; last constructions: %s", w.seq.Load(), strings.Join(w.builds, " | "))
